@@ -1038,6 +1038,38 @@ def mon_B(case, pid):
             st_state["prev_snap"] = snap
 
 
+def mon_glue(case, pid):
+    """Layer G (construction glue), recomputed independently of the model: a configuration the builder accepted must
+    construct (C17); a request the upsert builder accepted must say what the calls said (C08)."""
+    for st in case.steps:
+        if st.kind != "pure" or not st.toks or not st.toks[0].startswith("glue."):
+            continue
+        t, o = st.ev.split()[1:], st.out.split()
+        if pid == "C17" and t[0] == "glue.new" and o and o[0] == "panic":
+            yield finding("C17", st, f"CacheD::new panicked on a configuration the builder accepted: {' '.join(t[1:])}", "C17/construction-panicked")
+        if pid == "C17" and t[0] == "glue.weight" and o and o[0] == "weight" and int(o[1]) <= 0:
+            yield finding("C17", st, f"the default weight function returned {o[1]} (put would panic on its assert)", "C17/default-weight-not-positive")
+        if pid == "C08" and t[0] == "glue.upsert" and o and o[0] == "req":
+            kv = dict(x.split("=", 1) for x in t[1:5])
+            calls = t[6:] if len(t) > 6 else []
+            want_value = "1" if "value" in calls else "0"
+            weights = [c.split(":")[1] for c in calls if c.startswith("weight:")]
+            ttls = [c.split(":")[1] for c in calls if c.startswith("ttl:")]
+            want_weight = weights[-1] if weights else "-"
+            want_ttl = ttls[-1] if ttls else "-"
+            want_rm = "1" if "rm" in calls else "0"
+            if weights:
+                want_uw = weights[-1]
+            elif want_value == "1":
+                want_uw = str(int(kv["wbase"]) + int(kv["v"]) % int(kv["wmod"]) + (int(kv["ttlentry"]) if ttls else 0))
+            else:
+                want_uw = "-"
+            got = dict(x.split("=", 1) for x in o[1:])
+            want = {"value": want_value, "weight": want_weight, "ttl": want_ttl, "rm": want_rm, "uw": want_uw}
+            if got != want:
+                yield finding("C08", st, f"the request built by {' '.join(calls)} carries {got}, the calls said {want}", "C08/request-not-as-built")
+
+
 PERSISTENT = ("C05", "C15", "C16")   # state predicates: once false they stay false; only the first step of a case names the cause
 
 
@@ -1071,6 +1103,8 @@ def _dispatch(pid):
             yield from mon_C13_ack(case)
         elif pid == "C14":
             yield from mon_C14_pure(case)
+        elif pid in ("C17", "C08"):
+            yield from mon_glue(case, pid)
         elif pid == "C16":
             for st in case.steps:
                 if st.kind == "pure" and st.toks and st.toks[0] == "ratio" and "mismatch" in st.out:
